@@ -18,6 +18,19 @@ var PeerIDs = map[string]string{
 
 var peerEpoch = time.Unix(1700000000, 0).UTC()
 
+// secretUUID maps a short logical secret name to a UUID (peering secrets are UUIDs; the
+// peering-secret-uuids table has a UUID index).
+func secretUUID(name string) string {
+	if name == "" {
+		return ""
+	}
+	h := uint32(2166136261)
+	for i := 0; i < len(name); i++ {
+		h = (h ^ uint32(name[i])) * 16777619
+	}
+	return fmt.Sprintf("5ec0e700-0000-4000-8000-%012x", uint64(h))
+}
+
 // PeeringWrite: state one of "", PENDING, ACTIVE, DELETING, TERMINATED; dial=true marks a dialer.
 func PeeringWrite(name string, state pbpeering.PeeringState, dial bool, secret string) world.Op {
 	n := fmt.Sprintf("peering.write(%s,%s,dial=%v,secret=%s)", name, state, dial, secret)
@@ -32,7 +45,7 @@ func PeeringWrite(name string, state pbpeering.PeeringState, dial bool, secret s
 		req := &pbpeering.PeeringWriteRequest{Peering: p}
 		if secret != "" {
 			req.SecretsRequest = &pbpeering.SecretsWriteRequest{PeerID: PeerIDs[name],
-				Request: &pbpeering.SecretsWriteRequest_GenerateToken{GenerateToken: &pbpeering.SecretsWriteRequest_GenerateTokenRequest{EstablishmentSecret: secret}}}
+				Request: &pbpeering.SecretsWriteRequest_GenerateToken{GenerateToken: &pbpeering.SecretsWriteRequest_GenerateTokenRequest{EstablishmentSecret: secretUUID(secret)}}}
 		}
 		return structs.PeeringWriteType, req, true
 	}}
@@ -67,6 +80,7 @@ func TrustBundleDelete(peer string) world.Op {
 func SecretsWrite(peer, kind, a, b string) world.Op {
 	return world.Op{Name: fmt.Sprintf("peering.secrets(%s,%s,%s,%s)", peer, kind, a, b), Kind: "peering/secrets-" + kind, Build: func(w *world.World) (structs.MessageType, any, bool) {
 		req := &pbpeering.SecretsWriteRequest{PeerID: PeerIDs[peer]}
+		a, b := secretUUID(a), secretUUID(b)
 		switch kind {
 		case "generate":
 			req.Request = &pbpeering.SecretsWriteRequest_GenerateToken{GenerateToken: &pbpeering.SecretsWriteRequest_GenerateTokenRequest{EstablishmentSecret: a}}
